@@ -40,7 +40,11 @@ def build(tier, seed):
                                 witness=(ver == 2 and pfx == 0 and comp == 0 and verify == 0), timeout=900))
     # v1 / v2 files whose index payload exceeds 127 bytes (a fixed32 length must not be read as a varint)
     nblk = 14
-    big = enc([1] * nblk, [0] * nblk, [1] * nblk, sepl=[6] * nblk, irst=[1] + [0] * (nblk - 1))
+    # concrete keys and separators (values stay symbolic): a reader that mis-sizes the index then fails
+    # concretely instead of dragging symbolic restart counts through every loop
+    bk = [[0x61 + i] for i in range(nblk)]
+    big = enc([1] * nblk, [1] * nblk, [1] * nblk, sepl=[6] * nblk, irst=[1] + [0] * (nblk - 1),
+              ckeys=bk, cseps=[k + [0, 0, 0, 0, 0] for k in bk])
     for ver in (1, 2):
         q = rc.rq("iter_bigindex_v%d" % ver, "h_drain", dict(big, ver=ver), kind=0, witness=False, timeout=1500)
         q.flags = ["--max-field-sensitivity-array-size", "2048"]
